@@ -44,11 +44,18 @@ func (p *libPair) close() {
 
 // openLibPair starts a server on a free port, connects a client and performs the handshake
 // (optionally preceded by OPTIONS/SUPPORTED). nil = the case cannot go on (already recorded).
-func openLibPair(k *kase, optionsFirst bool) *libPair {
+func openLibPair(k *kase, optionsFirst bool) *libPair { return openLibPairWith(k, optionsFirst, nil) }
+
+// openLibPairWith: mh != nil registers the marker handler on the server and leaves Receive uncalled
+// after the handshake (scenario burst).
+func openLibPairWith(k *kase, optionsFirst bool, mh *markerHandler) *libPair {
 	k.stage("lib-lib: connect")
 	ctx, cancel := context.WithCancel(context.Background())
 	p := &libPair{k: k, cancel: cancel}
 	p.srv = client.NewCqlServer("127.0.0.1:0", k.creds())
+	if mh != nil {
+		p.srv.RequestHandlers = []client.RequestHandler{mh.handle}
+	}
 	if err := p.srv.Start(ctx); err != nil {
 		k.inconclusive("harness/server-start-failed")
 		cancel()
@@ -96,7 +103,9 @@ func openLibPair(k *kase, optionsFirst bool) *libPair {
 		return nil
 	}
 	k.count("handshakes/"+k.cfg, 1)
-	p.ls.startPump()
+	if mh == nil {
+		p.ls.startPump()
+	}
 	return p
 }
 
@@ -125,6 +134,14 @@ func runLibLib(k *kase) {
 		return
 	}
 	optionsFirst := k.r.Bool()
+	if k.spec.Scenario == "burst" {
+		mh := newMarkerHandler()
+		if p := openLibPairWith(k, optionsFirst, mh); p != nil {
+			defer p.close()
+			libLibBurst(k, p, mh)
+		}
+		return
+	}
 	p := openLibPair(k, optionsFirst)
 	if p == nil {
 		return
